@@ -31,7 +31,7 @@ def main():
             gen_obl = [f for f in getattr(mod, 'EXTRA_OBLIGATION_FILES', ()) if panellib.is_generated_obligation(f)]
             if gen_obl:
                 for f, err in panellib.check_generated_obligations(ctx, gen_obl)['errors']:
-                    pr['broken'].append((f + ('.v' if f.startswith('Proofs/') else ''), err))
+                    pr['broken'].append((f, err))
         corr = mod.correspondence(ctx, verdict, pr)
         new_before = len(verdict.violations)
         problems = [('proof obligation %s' % f, e) for f, e in pr['broken']] + \
